@@ -34,6 +34,25 @@ impl World {
             return self.ew.exec(&self.rt, &f);
         }
         match f[0] {
+            "km" => {
+                use casbin::function_map as fm;
+                let k = unesc(f[2]); let pat = unesc(f[3]);
+                let v = if f.len() > 4 { unesc(f[4]) } else { String::new() };
+                let name = f[1].to_string();
+                let r = catch(move || match name.as_str() {
+                    "keyMatch" => bool_s(fm::key_match(&k, &pat)).to_string(),
+                    "keyGet" => format!("s:{}", esc(&fm::key_get(&k, &pat))),
+                    "keyMatch2" => bool_s(fm::key_match2(&k, &pat)).to_string(),
+                    "keyGet2" => format!("s:{}", esc(&fm::key_get2(&k, &pat, &v))),
+                    "keyMatch3" => bool_s(fm::key_match3(&k, &pat)).to_string(),
+                    "keyGet3" => format!("s:{}", esc(&fm::key_get3(&k, &pat, &v))),
+                    "keyMatch4" => bool_s(fm::key_match4(&k, &pat)).to_string(),
+                    "keyMatch5" => bool_s(fm::key_match5(&k, &pat)).to_string(),
+                    "regexMatch" => bool_s(fm::regex_match(&k, &pat)).to_string(),
+                    _ => "bad-fn".to_string(),
+                });
+                r.unwrap_or_else(|| "panic".to_string())
+            }
             "eff.run" => {
                 let xi: usize = f[1].parse().unwrap();
                 let cap: usize = f[2].parse().unwrap();
